@@ -5,6 +5,8 @@ package main
 import (
 	"bytes"
 	"context"
+	"crypto/sha256"
+	"encoding/hex"
 	"fmt"
 	"os"
 	"os/exec"
@@ -22,6 +24,7 @@ type Result struct {
 	Model   string
 	Reason  string
 	Query   string // path of query file (kept for refuted/undecided)
+	Relaxed bool   // the model comes from the problem without quantified assumptions
 }
 
 func (o *Obligation) query(forCvc5 bool, withModel bool) string {
@@ -73,7 +76,7 @@ func (o *Obligation) query(forCvc5 bool, withModel bool) string {
 	if o.Guard != "" && o.Guard != "true" {
 		sb.WriteString("(assert " + o.Guard + ")\n")
 	}
-	if !o.ExpectSat {
+	if !o.ExpectSat && !o.Consistency {
 		sb.WriteString("(assert (not " + o.Goal + "))\n")
 	}
 	sb.WriteString("(check-sat)\n")
@@ -130,11 +133,59 @@ func runSolver(sp solverSpec, file string, timeout int) (string, string, float64
 	return "error", s, el
 }
 
+// Proof cache: a query text that was decided "unsat" (or a cover "sat") once
+// stays decided; keyed by the SHA-256 of the full query. Never stores failures.
+func cacheDir() string { return filepath.Join(verifDir, "work", "cache") }
+
+func cacheKey(q string) string {
+	h := sha256.Sum256([]byte(q))
+	return hex.EncodeToString(h[:])
+}
+
+func cacheGet(q string) (string, bool) {
+	if os.Getenv("GOVC_NOCACHE") != "" {
+		return "", false
+	}
+	data, err := os.ReadFile(filepath.Join(cacheDir(), cacheKey(q)))
+	if err != nil {
+		return "", false
+	}
+	v := strings.TrimSpace(string(data))
+	if !strings.HasPrefix(v, "proved") && !strings.HasPrefix(v, "cover-ok") {
+		return "", false
+	}
+	return v, true
+}
+
+func cachePut(q, val string) {
+	os.MkdirAll(cacheDir(), 0755)
+	tmp, err := os.CreateTemp(cacheDir(), "tmp-*")
+	if err != nil {
+		return
+	}
+	tmp.WriteString(val)
+	tmp.Close()
+	os.Rename(tmp.Name(), filepath.Join(cacheDir(), cacheKey(q)))
+}
+
 // discharge decides one obligation.
 func discharge(o *Obligation, dir string, timeout int, confirm bool) *Result {
 	res := &Result{Obl: o}
 	base := filepath.Join(dir, safeName(o.Name))
 	q := o.query(false, false)
+	if v, ok := cacheGet(q); ok {
+		parts := strings.SplitN(v, " ", 2)
+		res.Status = parts[0]
+		if len(parts) > 1 {
+			res.Solver = parts[1] + "(cached)"
+		}
+		return res
+	}
+	defer func() {
+		if res.Status == "proved" || res.Status == "cover-ok" {
+			cachePut(q, res.Status+" "+res.Solver)
+		}
+	}()
 	file := base + ".smt2"
 	os.WriteFile(file, []byte(q), 0644)
 	res.Query = file
@@ -146,6 +197,19 @@ func discharge(o *Obligation, dir string, timeout int, confirm bool) *Result {
 		res.Status, res.Solver, res.Reason = status, solver, reason
 		res.TimeS += t
 		return res
+	}
+	if o.Consistency {
+		// the assumptions on this path (with all quantified axioms and
+		// invariants) must not be contradictory: "unsat" means every obligation
+		// below this point would hold vacuously
+		for _, sp := range solvers[:2] {
+			r, _, el := runSolver(sp, file, 3)
+			res.TimeS += el
+			if r == "unsat" {
+				return finish("cover-failed", sp.name, 0, "assumptions on this path are contradictory")
+			}
+		}
+		return finish("cover-ok", "z3-new+z3", 0, "")
 	}
 	// stage 1: z3-new, short
 	t1 := timeout
@@ -254,6 +318,7 @@ func discharge(o *Obligation, dir string, timeout int, confirm bool) *Result {
 		// problem; otherwise it is a candidate that counts only if it replays.
 		res.Model = relaxedOut
 		res.Query = rfile
+		res.Relaxed = true
 		if !hasQuant && !strings.Contains(o.Goal, "(forall ") && !strings.Contains(o.Goal, "(exists ") {
 			return finish("refuted", "z3-new", 0, reason+"; quantifier-free problem: sat")
 		}
@@ -281,15 +346,15 @@ func safeName(s string) string {
 		}
 	}
 	out := sb.String()
-	if len(out) > 150 {
-		h := 0
-		for _, r := range s {
-			h = h*31 + int(r)
-			h &= 0xffffff
-		}
-		out = fmt.Sprintf("%s_%06x", out[:140], h)
+	h := 0
+	for _, r := range s {
+		h = h*31 + int(r)
+		h &= 0xffffff
 	}
-	return out
+	if len(out) > 120 {
+		out = out[:120]
+	}
+	return fmt.Sprintf("%s_%06x", out, h)
 }
 
 // dischargeAll runs obligations on a worker pool.
@@ -305,7 +370,7 @@ func dischargeAll(obls []*Obligation, dir string, timeout int, workers int) []*R
 			defer wg.Done()
 			defer func() { <-sem }()
 			results[i] = discharge(o, dir, timeout, false)
-			if results[i].Status == "proved" || results[i].Status == "cover-ok" {
+			if (results[i].Status == "proved" || results[i].Status == "cover-ok") && os.Getenv("GOVC_KEEP") == "" {
 				os.Remove(results[i].Query)
 			}
 		}(i, o)
